@@ -207,6 +207,10 @@ func runWorld(spec *Spec, ch *sim.Choices, res *Result, uniq string) {
 		s.Horizon = time.Hour
 		w := worlds.RunLB(s, spec.Prop, uniq)
 		finish(w.Stats, w.Nontrivial(), map[string]any{"policy": w.Policy, "concurrent": w.Conc})
+	case "health":
+		s.Horizon = 10 * time.Hour
+		w := worlds.RunHealth(s, uniq)
+		finish(w.Stats, w.Nontrivial(), w.P)
 	default:
 		res.Infra = "unknown world " + spec.World
 	}
